@@ -108,10 +108,15 @@ class Importer:
                 cfgd = {'site': site, 'seats': seats, 'button': button, 'hero': hero}
                 ctx.counters['logs_imported'] += 1
                 ctx.counters[f'logs[{site}]'] += 1
+                # every third hand is imported with a caller-supplied value parser (dollars -> integer cents): every amount of
+                # the imported history, metadata included, must then be in cents
+                cents = self.k % 3 == 0 and self.scales_cleanly(st, ctx)
+                scale = 100 if cents else 1
+                kw = {'parse_value': (lambda t: int(Decimal(t.replace(',', '')) * 100))} if cents else {}
                 try:
                     with warnings.catch_warnings():
                         warnings.simplefilter('ignore')
-                        hs = list(getattr(H, METHOD[site])(text, error_status=True))
+                        hs = list(getattr(H, METHOD[site])(text, error_status=True, **kw))
                 except Exception as exc:
                     cause = exc.__cause__ or exc.__context__
                     ctx.violation('import-raised', f'{cfgd}: {type(exc).__name__}; cause {cause!r}\n{text}',
@@ -128,17 +133,26 @@ class Importer:
                     bad.append(('players', hh.players, NAMES[:n]))
                 if list(hh.seats or []) != list(seats):
                     bad.append(('seats', hh.seats, seats))
-                if list(hh.blinds_or_straddles) != list(st.blinds_or_straddles):
-                    bad.append(('blinds', hh.blinds_or_straddles, list(st.blinds_or_straddles)))
+                if list(hh.blinds_or_straddles) != [b * scale for b in st.blinds_or_straddles]:
+                    bad.append(('blinds', hh.blinds_or_straddles, [b * scale for b in st.blinds_or_straddles]))
                 if any(hh.antes):
                     bad.append(('antes', hh.antes, 0))
-                if list(hh.starting_stacks) != list(st.starting_stacks):
-                    bad.append(('stacks', hh.starting_stacks, list(st.starting_stacks)))
-                if hh.min_bet != st.blinds_or_straddles[1]:
-                    bad.append(('min_bet', hh.min_bet, st.blinds_or_straddles[1]))
+                if list(hh.starting_stacks) != [x * scale for x in st.starting_stacks]:
+                    bad.append(('stacks', hh.starting_stacks, [x * scale for x in st.starting_stacks]))
+                if hh.min_bet != st.blinds_or_straddles[1] * scale:
+                    bad.append(('min_bet', hh.min_bet, st.blinds_or_straddles[1] * scale))
+                # what the log says each player collected (sites and names for which the importer's pattern applies)
+                if site in ('pokerstars', 'full_tilt_poker', 'absolute_poker', 'ongame_network', 'partypoker') and hh.winnings is not None:
+                    for i in range(n):
+                        if site == 'partypoker' and ' ' in NAMES[i]:
+                            continue
+                        if hh.winnings[i] != hand.collected[i] * scale:
+                            bad.append(('winnings', list(hh.winnings), [c * scale for c in hand.collected]))
+                            break
+                    ctx.counters['winnings_fields_compared'] += 1
                 got_bets = bet_lines(hh.actions)
                 if [' '.join(a.split()[:2]) for a in got_bets] != [' '.join(a.split()[:2]) for a in exp_bets] or \
-                        [Decimal(a.split()[2]) for a in got_bets if ' cbr ' in a] != [Decimal(a.split()[2]) for a in exp_bets if ' cbr ' in a]:
+                        [Decimal(a.split()[2]) for a in got_bets if ' cbr ' in a] != [Decimal(a.split()[2]) * scale for a in exp_bets if ' cbr ' in a]:
                     bad.append(('betting actions', got_bets, exp_bets))
                 got_board = ''.join(a.split()[2] for a in hh.actions if a.startswith('d db'))
                 if got_board != ''.join(sum(hand.boards, [])):
@@ -164,7 +178,7 @@ class Importer:
                     continue
                 ctx.counters['imports_replayed'] += 1
                 self.seen.add((site, tuple(hh.actions)))
-                if fin.status or list(fin.stacks) != list(st.stacks):
+                if fin.status or list(fin.stacks) != [x * scale for x in st.stacks]:
                     kinds = [type(o).__name__ for o in ops]
                     if 'HoleCardsShowingOrMucking' not in kinds:
                         shape = 'no-showdown'
@@ -178,6 +192,35 @@ class Importer:
                 # uninterpretable variants must be reported
                 if self.k % 4 == 0 and seats == seatings(n, self.k % 2)[0][0]:
                     self.corrupt(H, site, text, hand, ctx, cfgd)
+
+    def scales_cleanly(self, st, ctx):
+        """does the same hand played with chips x 100 end with 100 x the stacks?  (not when an odd chip was handed out: in cents the
+        pot divides evenly, and the log - written in whole units - would state another split)"""
+        key = tuple(ctx.path)
+        if getattr(self, '_sc_key', None) == key:
+            return self._sc_val
+        cfg2 = dict(self.cfg)
+        if cfg2.get('chips'):
+            self._sc_key, self._sc_val = key, False
+            return False
+        pk = env.pokerkit
+        S = env.S
+        st2 = pk.NoLimitTexasHoldem.create_state(tuple(S.Automation), True, 0, (100, 200), 200, tuple(x * 100 for x in self.cfg['stacks']),
+                                                 len(self.cfg['stacks']), mode=S.Mode.CASH_GAME)
+        ok = True
+        try:
+            for ev in ctx.path:
+                if ev[0] == 'complete_bet_or_raise_to' and ev[1] is not None:
+                    st2.complete_bet_or_raise_to(ev[1] * 100)
+                else:
+                    getattr(st2, ev[0])(*ev[1:])
+            ok = list(st2.stacks) == [x * 100 for x in st.stacks]
+        except Exception:
+            ok = False
+        if not ok:
+            ctx.counters['hands_with_an_odd_chip_not_imported_in_cents'] += 1
+        self._sc_key, self._sc_val = key, ok
+        return ok
 
     def corrupt(self, H, site, text, hand, ctx, cfgd):
         lines = text.split('\n')
